@@ -49,6 +49,7 @@ MODULES = {
     "TimeTreeModel": "torchtree.evolution.tree_model",
     "StrictClockModel": "torchtree.evolution.branch_model",
     "SimpleClockModel": "torchtree.evolution.branch_model",
+    "Logger": "torchtree.core.logger",
 }
 TYPE_NAMES = {}
 for _c, _m in MODULES.items():
@@ -177,6 +178,7 @@ class Interp:
         self.faults = []  # (kind, relation)
         self.pending = []  # unresolved references (id, path)
         self.nested_dups = set()  # ids defined again inside their own definition
+        self.fault_tops = []
         self.order_dependent = False  # verdict would depend on the order of keys inside one object
         self.malformed = None  # outside the zoo / the language subset handled here
         self.nodes = []
@@ -191,7 +193,7 @@ class Interp:
             if str(e) == "nested":
                 self.malformed = "nested plate"
             else:
-                self.faults.append(("plate_not_in_list", "-"))
+                self._fault("plate_not_in_list", "-", [])
         if self.expanded is not None:
             if not isinstance(self.expanded, list):
                 self.malformed = "top level is not a list"
@@ -205,9 +207,19 @@ class Interp:
                 for id_, path in self.pending:
                     if id_ in self.defined:
                         self._lca_guard(self.defined[id_], path)
-                        self.faults.append(("dangling", "forward"))
+                        self._fault("dangling", "forward", path)
                     else:
-                        self.faults.append(("dangling", "nothing"))
+                        self._fault("dangling", "nothing", path)
+
+    def _fault(self, kind, rel, path):
+        self.faults.append((kind, rel))
+        self.fault_tops.append(path[0] if path else -1)
+
+    @property
+    def fault_top(self):
+        """index (in the expanded top-level list) of the first element that cannot be completed;
+        -1 when nothing can be constructed at all, None when well-formed"""
+        return min(self.fault_tops) if self.fault_tops else None
 
     # ---- verdict
     @property
@@ -239,13 +251,13 @@ class Interp:
             if v in self.defined and path[: len(self.defined[v])] == self.defined[v]:
                 # a reference to the object being defined; when a second definition of the same id has
                 # already been seen inside it, this is a consequence of that duplicate, not a fault of its own
-                self.faults.append(("dangling", "enclosing_shadowed" if v in self.nested_dups else "enclosing"))
+                self._fault("dangling", "enclosing_shadowed" if v in self.nested_dups else "enclosing", path)
             else:
                 self.pending.append((v, path))
             return None
         if isinstance(v, dict):
             return self.define(v, path)
-        self.faults.append(("not_object", "-"))
+        self._fault("not_object", "-", path)
         return None
 
     def objs(self, v, path):
@@ -257,7 +269,7 @@ class Interp:
         first = False
         id_ = None
         if "id" not in v:
-            self.faults.append(("missing_id", "-"))
+            self._fault("missing_id", "-", path)
         else:
             id_ = v["id"]
             if not isinstance(id_, str):
@@ -266,18 +278,18 @@ class Interp:
                 rel = relation(self.defined[id_], path)
                 if rel == "ancestor":
                     self.nested_dups.add(id_)
-                self.faults.append(("duplicate", rel))
+                self._fault("duplicate", rel, path)
             else:
                 self.defined[id_] = path
                 first = True
         if "type" not in v:
-            self.faults.append(("missing_type", "-"))
+            self._fault("missing_type", "-", path)
             return None
         cls = TYPE_NAMES.get(v["type"]) if isinstance(v["type"], str) else None
         if cls is None:
             if isinstance(v["type"], str) and (v["type"].startswith("torch.") or v["type"].endswith("Plate")):
                 raise _Malformed("type outside the zoo")
-            self.faults.append(("unknown_type", "-"))
+            self._fault("unknown_type", "-", path)
             return None
         node = Node(cls=cls, id=id_, path=path, uses=[])
         getattr(self, "_" + cls)(v, path, node)
@@ -414,6 +426,13 @@ class Interp:
         self._slot(v, "rate", path, node)
 
     _SimpleClockModel = _StrictClockModel
+
+    def _Logger(self, v, path, node):
+        # a Runnable: torchtree.main runs it as soon as its top-level element is complete
+        if not isinstance(v.get("parameters"), list) or "delimiter" in v or v.get("every", 1) != 1:
+            raise _Malformed("logger outside the subset")
+        self._slot(v, "parameters", path, node, many=True)
+        node["file_name"] = v.get("file_name")
 
     # ---- derived facts
     def holders(self):
@@ -568,4 +587,23 @@ def value(node):
         return {"rates": np.broadcast_to(np.asarray(_t(_use(node, "rate")), dtype=float), (2 * n - 2,))}
     if cls == "SimpleClockModel":
         return {"rates": np.asarray(_t(_use(node, "rate")), dtype=float)}
+    if cls == "Logger":
+        return {}
     raise ValueError(cls)
+
+
+def logger_file(node):
+    """what a Logger writes when it is run once (header, then one row: 0.0 and the current values)"""
+    import csv
+    import io
+
+    buf = io.StringIO()
+    w = csv.writer(buf)
+    head, row = ["sample"], [0.0]
+    for c in _use(node, "parameters"):
+        t = np.atleast_1d(np.asarray(_t(c), dtype=float))
+        head += ["%s.%d" % (c["id"], i) for i in range(t.shape[-1])]
+        row += [float(x) for x in t]
+    w.writerow(head)
+    w.writerow(row)
+    return buf.getvalue()
